@@ -145,7 +145,7 @@ def trace_validate(module, path, name, timeout=3600, xmx="6g", extra_states=None
     """Validate an ndjson trace with spec/<module>.tla.  Returns (events, bad) where bad is
     the list of (1-based line, event) that the specification rejects.  A trace that is not
     consumed to its end is a tool error (the trace spec itself is stuck)."""
-    r = tlc(module, TRACE_CFG, name, workers=1, deque=True, xss=True, xmx=xmx,
+    r = tlc(module, globals()["TRACE_CFG"], name, workers=1, deque=True, xss=True, xmx=xmx,
             env_extra={"TRACE": path}, timeout=timeout)
     bad = []
     reasons = {}
